@@ -34,6 +34,7 @@ func main() {
 			panic(err)
 		}
 	}
+	xrun.SkipModuleUnchanged = true
 	var o xrun.Outcome
 	switch os.Args[1] {
 	case "glsl":
